@@ -117,7 +117,7 @@ static void rel_hook(void *ptr, size_t size, void *ud) {
         for (size_t i = 0; i < size; ++i)
             if (((uint8_t *)ptr)[i]) ++bad;
         ESX_CHECK(bad == 0, "secure-release-not-zeroed", "a 'secure' call handed a %zu-byte block back to the allocator with %zu non-zero bytes", size, bad);
-        V_COUNT("secure_releases_checked", 1);
+        VC("secure_releases_checked");
     }
 }
 #define LIB_BEGIN(sec)                                                                                           \
@@ -161,7 +161,7 @@ static void snap(void) {
 }
 static void expect_unchanged(const char *nm) {
     if (esx_failed) return;
-    V_COUNT("failed_calls_checked_unchanged", 1);
+    VC("failed_calls_checked_unchanged");
     ESX_CHECK(memcmp(&X, &snapX, sizeof(X)) == 0, "failed-call-changed-struct",
               "%s reported failure but the buffer struct changed: len %zu->%zu capacity %zu->%zu buffer %s allocator %s", nm,
               snapX.len, X.len, snapX.capacity, X.capacity, snapX.buffer == X.buffer ? "same" : "CHANGED",
@@ -443,7 +443,7 @@ static void m_apply(int op) {
             rc = aws_byte_buf_init_cache_and_update_cursors(&X, al, &c1, &c2, NULL);
             LIB_END();
             if (huge) {
-                V_COUNT("refused_huge_lengths", 1);
+                VC("refused_huge_lengths");
                 ESX_CHECK(rc == AWS_OP_ERR, "must-refuse", "%s: total length exceeds SIZE_MAX but the call succeeded", nm);
                 ESX_CHECK(memcmp(&c1, &c1o, sizeof(c1)) == 0 && memcmp(&c2, &c2o, sizeof(c2)) == 0, "failed-call-changed-cursor", "%s failed but changed a cursor", nm);
                 if (rc == AWS_OP_ERR) expect_unchanged(nm); /* X was the zeroed struct before */
@@ -490,7 +490,7 @@ static void m_apply(int op) {
             if (g_cfg.kind != 0) {
                 ESX_CHECK(hook_count == 0, "clean-up-release", "%s released caller storage", nm);
                 if (d->a) {
-                    V_COUNT("secure_zero_checked", 1);
+                    VC("secure_zero_checked");
                     for (size_t i = 0; i < cap0; ++i) ESX_CHECK(store[i] == 0, "secure-zero", "%s left byte %zu of the caller's storage non-zero", nm, i);
                 }
                 check_guards(nm);
@@ -503,7 +503,7 @@ static void m_apply(int op) {
         case F_APPEND_LOOKUP:
         case F_APPEND_UPDATE: {
             make_carg(d->a, &ca);
-            if (ca.self) V_COUNT("self_append", 1);
+            if (ca.self) VC("self_append");
             LIB_BEGIN(0);
             rc = d->fn == F_APPEND ? aws_byte_buf_append(&X, &ca.c) : d->fn == F_APPEND_LOOKUP ? aws_byte_buf_append_with_lookup(&X, &ca.c, rot_table) : aws_byte_buf_append_and_update(&X, &ca.c);
             LIB_END();
@@ -519,7 +519,7 @@ static void m_apply(int op) {
                     ESX_CHECK(memcmp(&ca.c, &ca.c0, sizeof(ca.c)) == 0, "source-cursor-changed", "%s changed its const source cursor", nm);
                 }
             } else {
-                if (ca.huge) V_COUNT("refused_huge_lengths", 1);
+                if (ca.huge) VC("refused_huge_lengths");
                 expect_int_fail(rc, AWS_ERROR_DEST_COPY_TOO_SMALL, nm);
                 ESX_CHECK(memcmp(&ca.c, &ca.c0, sizeof(ca.c)) == 0, "failed-call-changed-cursor", "%s failed but changed the cursor", nm);
             }
@@ -545,23 +545,23 @@ static void m_apply(int op) {
             else rc = aws_byte_buf_append_null_terminator(&X);
             LIB_END();
             if (ovf) {
-                V_COUNT("refused_huge_lengths", 1);
+                VC("refused_huge_lengths");
                 expect_int_fail(rc, 0, nm);
                 break;
             }
             ESX_CHECK(rc == AWS_OP_SUCCESS, "must-succeed", "%s failed (error %s)", nm, aws_error_name(aws_last_error()));
             if (grows) {
-                V_COUNT("growth_events", 1);
-                if (ca.self) V_COUNT("self_append_with_growth", 1);
+                VC("growth_events");
+                if (ca.self) VC("self_append_with_growth");
                 if (sec && cap0) ESX_CHECK(hook_count >= 1, "secure-release-not-seen", "%s grew the buffer but no block went back to the allocator", nm);
             } else if (ca.self) {
-                V_COUNT("self_append", 1);
+                VC("self_append");
             }
             ref_put(ca.data, ca.def, ca.n);
             ref_grow(newcap);
             if (rc == AWS_OP_SUCCESS && X.capacity != newcap && X.capacity >= R.len && X.len == R.len) {
                 /* the header only promises "grown appropriately": accept any capacity >= the need, but say so */
-                V_COUNT("growth_capacity_differs_from_doubling_rule", 1);
+                VC("growth_capacity_differs_from_doubling_rule");
                 R.cap = X.capacity;
             }
             break;
@@ -581,7 +581,7 @@ static void m_apply(int op) {
                 ESX_CHECK(rc == AWS_OP_SUCCESS, "must-succeed", "%s failed", nm);
             } else {
                 /* documented partial operation: dest->len holds what was actually copied (the parts before the one that did not fit) */
-                if (fit1 && l1) V_COUNT("partial_cat", 1);
+                if (fit1 && l1) VC("partial_cat");
                 ESX_CHECK(rc == AWS_OP_ERR, "must-refuse", "%s succeeded without room", nm);
                 if (rc == AWS_OP_ERR) ESX_CHECK(aws_last_error() == AWS_ERROR_DEST_COPY_TOO_SMALL, "error-code", "%s raised %s", nm, aws_error_name(aws_last_error()));
                 if (!fit1) expect_unchanged(nm);
@@ -599,7 +599,7 @@ static void m_apply(int op) {
             rc = d->fn == F_RESERVE ? aws_byte_buf_reserve(&X, arg) : d->fn == F_RESERVE_REL ? aws_byte_buf_reserve_relative(&X, arg) : d->fn == F_RESERVE_SMART ? aws_byte_buf_reserve_smart(&X, arg) : aws_byte_buf_reserve_smart_relative(&X, arg);
             LIB_END();
             if (rel && arg > SIZE_MAX - R.len) {
-                V_COUNT("refused_huge_lengths", 1);
+                VC("refused_huge_lengths");
                 expect_int_fail(rc, 0, nm);
                 break;
             }
@@ -607,10 +607,10 @@ static void m_apply(int op) {
             size_t newcap = smart ? smart_newcap(req) : (req > R.cap ? req : R.cap);
             ESX_CHECK(rc == AWS_OP_SUCCESS, "must-succeed", "%s failed (error %s)", nm, aws_error_name(aws_last_error()));
             if (req > cap0) {
-                V_COUNT("growth_events", 1);
+                VC("growth_events");
                 ref_grow(newcap);
                 if (smart && rc == AWS_OP_SUCCESS && X.capacity != newcap && X.capacity >= req && X.len == R.len) {
-                    V_COUNT("growth_capacity_differs_from_doubling_rule", 1);
+                    VC("growth_capacity_differs_from_doubling_rule");
                     R.cap = X.capacity;
                 }
             } else if (rc == AWS_OP_SUCCESS) {
@@ -691,7 +691,7 @@ static void m_apply(int op) {
                 ESX_CHECK(r, "must-succeed", "%s returned false with %zu bytes free", nm, fit);
                 ref_put(data, NULL, n);
             } else {
-                if (huge) V_COUNT("refused_huge_lengths", 1);
+                if (huge) VC("refused_huge_lengths");
                 ESX_CHECK(!r, "must-refuse", "%s returned true without room (%zu bytes free)", nm, fit);
                 if (!r) expect_unchanged(nm);
             }
@@ -707,7 +707,7 @@ static void m_apply(int op) {
             if (w) {
                 ESX_CHECK(ret.ptr == c0.ptr, "write-to-capacity-result", "%s: returned cursor does not start at the original cursor", nm);
                 ESX_CHECK(c.ptr == c0.ptr + w && c.len == n - w, "write-to-capacity-cursor", "%s: advancing cursor is (+%td,%zu), expected (+%zu,%zu)", nm, c.ptr - c0.ptr, c.len, w, n - w);
-                if (w < n) V_COUNT("write_to_capacity_truncated", 1);
+                if (w < n) VC("write_to_capacity_truncated");
             } else {
                 ESX_CHECK(memcmp(&c, &c0, sizeof(c)) == 0, "write-to-capacity-cursor", "%s wrote nothing but altered the cursor", nm);
                 expect_unchanged(nm);
@@ -717,8 +717,7 @@ static void m_apply(int op) {
         }
         case F_ADVANCE: {
             size_t n = la_value(d->a, fit);
-            struct aws_byte_buf out;
-            AWS_ZERO_STRUCT(out);
+            struct aws_byte_buf out = aws_byte_buf_from_array(tmp_block(PAT, 1), 1); /* a valid, non-empty buffer: a failure must null it */
             LIB_BEGIN(0);
             bool r = aws_byte_buf_advance(&X, &out, n);
             LIB_END();
@@ -728,7 +727,7 @@ static void m_apply(int op) {
                 if (n) ESX_CHECK(out.buffer == X.buffer + len0, "advance-output", "%s: output does not start at the old end of the buffer", nm);
                 R.len += n;
             } else {
-                if (la_huge(d->a)) V_COUNT("refused_huge_lengths", 1);
+                if (la_huge(d->a)) VC("refused_huge_lengths");
                 ESX_CHECK(!r, "must-refuse", "%s returned true without room", nm);
                 ESX_CHECK(out.len == 0 && out.capacity == 0 && out.buffer == NULL && out.allocator == NULL, "advance-output", "%s failed but did not null the output", nm);
                 if (!r) expect_unchanged(nm);
@@ -763,7 +762,7 @@ static void m_apply(int op) {
                 ESX_CHECK(c.len == n - cap0 && (cap0 == 0 || c.ptr == c0.ptr + cap0), "read-fill-cursor", "%s: cursor not advanced by the capacity", nm);
                 R.len = 0;
                 ref_put(PAT, NULL, cap0);
-                V_COUNT("read_and_fill_ok", 1);
+                VC("read_and_fill_ok");
             } else {
                 ESX_CHECK(!r, "must-refuse", "%s returned true with a short cursor", nm);
                 ESX_CHECK(memcmp(&c, &c0, sizeof(c)) == 0, "failed-call-changed-cursor", "%s failed but changed the cursor", nm);
@@ -915,6 +914,10 @@ int main(int argc, char **argv) {
     };
     int ncfg = (int)(sizeof(cfgs) / sizeof(cfgs[0])), rc = 0, depth = 0, fixcap = 0;
     for (int i = 1; i < argc; ++i) {
+        if (!strcmp(argv[i], "--dbg")) { /* Debug-build pass of the thorough tier: same models, smaller bounds */
+            fixcap = 3;
+            depth = 5;
+        }
         if (!strcmp(argv[i], "--depth") && i + 1 < argc) depth = atoi(argv[i + 1]);
         if (!strcmp(argv[i], "--fixcap") && i + 1 < argc) fixcap = atoi(argv[i + 1]);
     }
